@@ -222,6 +222,9 @@ class Gen:
         if self.allowed:
             kinds = [k for k in kinds if k in self.allowed]
         what = r.choice(kinds)
+        # the random histories stay below ~2.5 KB per value (long values are the business of the stream `huge`): no doubling of a long value
+        if n > 1200 and what in ('apps', 'pres', 'pluseq', 'plus', 'plusasg', 'appo', 'preo', 'join', 'reps', 'printfs'):
+            return self.step()
         full = len(sh.vars) >= self.maxv
         kd = x.kind + ('' if x.term else 'u')
         shared = '/shared' if sh.refs(v) > 1 else ''
